@@ -1440,7 +1440,14 @@ def _add_stops(r, scn, p=0.06):
 
 
 def gen_C09(r):  # noqa: F811
-    return _add_stops(r, _gen_C09_stops(r))
+    scn = _add_stops(r, _gen_C09_stops(r))
+    if r.random() < 0.04:
+        # started by a supervisor that blocks SIGCHLD (it collects its children with sigwait / signalfd) and does not
+        # reset the signal mask before exec: the mask is inherited
+        for op in scn["history"]:
+            if op["op"] == "run":
+                op["sig_blocked"] = ["CHLD"]
+    return scn
 
 
 def gen_C04(r):  # noqa: F811
